@@ -294,6 +294,7 @@ def oracle_file(case) -> list:
             rn = res.residue_name
             names = (["O4'", "C1'", "N9", "C4"] if rn in ("A", "G", "DA", "DG") else
                      ["O4'", "C1'", "N1", "C2"] if rn in ("C", "U", "T", "DC", "DT") else None)
+            standard = names is not None
             if names is None:
                 # modified / unknown residue: if the table reports a chi at all it must be the glycosidic torsion
                 # of the atoms - defined by the nitrogen actually bonded to C1' (within 1.7 A); C-glycosides and
@@ -305,6 +306,9 @@ def oracle_file(case) -> list:
                         if na is not None and float(np.linalg.norm(np.array(na.coordinates, dtype=float) - np.array(c1.coordinates, dtype=float))) <= 1.7:
                             names = ["O4'", "C1'", nn, cc]
                             break
+            if standard and (val is None or (isinstance(val, float) and math.isnan(val))) and all(res.find_atom(n) is not None for n in names):
+                # a standard nucleotide with all four defining atoms: chi is defined, the table must have it
+                missing.append((str(res), "chi"))
             if names and val is not None and not (isinstance(val, float) and math.isnan(val)):
                 ats = [res.find_atom(n) for n in names]
                 if all(a is not None for a in ats):
